@@ -41,7 +41,9 @@ pub fn run(out: &mut Out, thorough: bool, seed: u64, _extra: &[String]) {
     // ---- ciphertext level
     let reps = if thorough { 36 } else { 6 };
     for rep in 0..reps {
-        let lg = r.range(2, if thorough { 6 } else { 4 }) as usize; let n = 1usize << lg;
+        // the first three rounds use N = 32: the smallest degree at which some steps (e.g. -11, -13) have no direct default key AND a
+        // NAF containing the full-row term ±N/2, so that the NAF composition (and its skipping of the identity term) is exercised
+        let lg = if rep < 3 { 5 } else { r.range(2, if thorough { 6 } else { 4 }) as usize }; let n = 1usize << lg;
         // the first rounds are directed: every scheme with two and with three data levels below the special prime
         let kq = if rep < 3 { 3 } else if rep < 6 { 4 } else { r.range(2, 4) as usize };
         let bits: Vec<usize> = (0..kq).map(|_| *r.pick(&[40usize, 50, 59])).collect();
